@@ -18,4 +18,4 @@ require (
 	rsc.io/tmplfunc v0.0.3 // indirect
 )
 
-replace github.com/consensys/gnark-crypto => /tmp/trymut-repo-365
+replace github.com/consensys/gnark-crypto => /tmp/trymut-repo-6426
